@@ -36,14 +36,14 @@ def gen_case(rng, cfg, idx):
                 return {"kind": "iter", "prog": c["prog"], "L": c["L"], "k": rng.randint(2, 5), "kseed": rng.randrange(1 << 30)}
         return None
     if r == 1:
-        c = C05.gen_case(rng, {"nstmts": cfg["nstmts"], "two_epoch": "random"}, idx)
+        c = C05.gen_case(rng, {"nstmts": cfg["nstmts"], "two_epoch": "random", "bad_w": 0.4}, idx)
         if c is None:
             return None
         return {"kind": "hist", "prog": c["prog"], "L": c["L"], "kseed": rng.randrange(1 << 30)}
     steps = []
     n = rng.randint(4, 14)
     acts = ["backward", "view", "read", "nullgrad", "use", "inplace", "backward", "untracked", "useview", "readview", "backward_view", "inplace_view",
-            "use_advidx", "use_boolidx", "use_einsum", "use_as_value", "nullgrad_discview", "view", "backward", "inplace_dangview", "inplace_dangview"]
+            "use_advidx", "use_boolidx", "use_einsum", "use_as_value", "nullgrad_discview", "view", "backward", "inplace_dangview", "inplace_dangview", "setshape_view", "setshape_view"]
     for _ in range(n):
         steps.append(rng.choice(acts))
     return {"kind": "life", "steps": steps, "shape": [rng.randint(2, 3)] * rng.randint(1, 2), "kseed": rng.randrange(1 << 30)}
@@ -153,7 +153,15 @@ def run_iter(case, cnt, viol, sets):
 def run_hist(case, cnt, viol, sets):
     prog = case["prog"]
     it = Interp("mg")
-    it.run(prog[:-1], catch=False)    # (two-epoch histories: everything up to the LAST backward, earlier backward passes included)
+    for i_, st_ in enumerate(prog[:-1]):   # (two-epoch histories: everything up to the LAST backward, earlier backward passes included)
+        if st_.get("expect_raise"):
+            # a statement NumPy itself rejects: the user catches the error and carries on
+            try:
+                it.exec(i_, st_)
+            except Exception:
+                cnt["hist_rejected_stmts"] = cnt.get("hist_rejected_stmts", 0) + 1
+        else:
+            it.exec(i_, st_)
     L = it.env[prog[-1]["tgt"]]
     cnt["hist_epochs"] = cnt.get("hist_epochs", 0) + sum(1 for st in prog if st["k"] == "backward")
     pre = upstream_tensors(L)
@@ -257,6 +265,19 @@ def run_life(case, cnt, viol, sets):
                              "msg": f"step {i}: in-place update through a view of a leaf (leaf holds a gradient: {have}) raised {type(e).__name__}: {e}"})
                 return 3
             have, expected = False, None
+            conn_after = conn
+        elif s == "setshape_view":
+            # assigning .shape on a connected view reshapes that view alone: the leaf took no part and keeps data and gradient
+            if not conn:
+                continue
+            v = conn.pop(rng_.randrange(len(conn)))
+            before = x.data.copy()
+            v.shape = tuple(v.shape) + (1,) if rng_.random() < 0.5 else (1,) + tuple(v.shape)
+            del v
+            cnt["life_view_setshape"] = cnt.get("life_view_setshape", 0) + 1
+            if not np.array_equal(x.data, before):
+                viol.append({"monitor": "lifecycle", "mech": "view-setshape-changes-leaf", "msg": f"step {i}: assigning .shape on a view changed the leaf's data"})
+                break
             conn_after = conn
         elif s == "inplace_dangview":
             # an in-place update through a view that an earlier backward pass cut loose acts on that view alone: the leaf took no part,
